@@ -455,6 +455,47 @@ func generate(seed uint64, focus, arm string) *plan.Plan {
 			}
 		}
 		if focus == "C08" && r.p(0.2) {
+			// promotion: an entry is pushed out of a small memory cache by other
+			// names while redis keeps it; a query brings it back into memory half
+			// way through its life; it must not get a new lifespan there
+			rp := p.Router
+			rs.DownUs, rs.FlushUs = nil, nil
+			rp.Cache.MemSize = r.rng(600, 1500)
+			rp.Cache.MaxTTL = 0
+			life := int64([]int{8, 12, 20}[r.intn(3)])
+			t0 := r.i64(1_800_000, 3_000_000)
+			addOp := func(tok string, at int64) {
+				si := r.intn(len(rp.Servers))
+				ci := len(rp.Conns)
+				cc := plan.ClientConn{Idx: ci, Server: si, LingerUs: 8_000_000, Src: "192.0.2.7"}
+				if strings.HasPrefix(rp.Servers[si].Listen, "[::1]") {
+					cc.Src = "2001:db8:a::5"
+				}
+				rp.Conns = append(rp.Conns, cc)
+				op := plan.ClientOp{Idx: len(rp.Ops), Conn: ci, AtUs: at, ID: uint16(r.u64()), Token: tok, NQ: 1, Class: 1, Type: 1, Bits: refdns.BitRD}
+				op.Labels = append([][]byte{[]byte(tok)}, labelsOf("example.com")...)
+				if pr := rp.Servers[si].Proto; pr == "http" || pr == "fasthttp" || pr == "https" {
+					op.Method = "POST"
+				}
+				rp.Ops = append(rp.Ops, op)
+				if at+12_000_000 > rp.HorizonUs {
+					rp.HorizonUs = at + 12_000_000
+				}
+			}
+			rp.Tokens["t960"] = &plan.TokenSpec{Ans: plan.AnswerSpec{NAn: 2, TTLs: []uint32{uint32(life)}, Shape: "plain"}, Acts: []plan.UpAction{{Kind: "reply", DelayUs: r.i64(200, 20_000)}}}
+			addOp("t960", t0)
+			for k := 0; k < r.rng(6, 14); k++ {
+				tok := fmt.Sprintf("t%d", 961+k)
+				rp.Tokens[tok] = &plan.TokenSpec{Ans: plan.AnswerSpec{NAn: 3, NNs: 1, TTLs: []uint32{600}, Shape: "plain"}, Acts: []plan.UpAction{{Kind: "reply", DelayUs: r.i64(200, 20_000)}}}
+				addOp(tok, t0+200_000+int64(k)*r.i64(20_000, 100_000))
+			}
+			d := life * 1_000_000 * int64(40+r.intn(30)) / 100
+			addOp("t960", t0+d)
+			for n := r.rng(1, 4); n > 0; n-- {
+				addOp("t960", t0+life*1_000_000+2_300_000+r.i64(0, max(1, d-2_600_000)))
+			}
+		}
+		if focus == "C08" && r.p(0.2) {
 			// a refresh that comes back negative while the positive entry is
 			// alive in the second level only (no memory cache, or one too small
 			// to keep it): the negative answer must not take its place there
@@ -463,6 +504,7 @@ func generate(seed uint64, focus, arm string) *plan.Plan {
 			if r.p(0.6) {
 				rp.Cache.MemSize = 0
 			}
+			rp.Cache.MaxTTL = 0
 			life := int64([]int{8, 12, 20}[r.intn(3)])
 			t0 := r.i64(1_800_000, 3_000_000) // after the second level's first ping
 			for k := 0; k < r.rng(1, 3); k++ {
@@ -1400,7 +1442,7 @@ func genCacheOps(r *rng, p *plan.Plan, focus, arm string) {
 		}
 		delay := func() int64 { return r.i64(200, 40_000) }
 		t.Acts = []plan.UpAction{{Kind: "reply", DelayUs: delay()}}
-		tcRefresh := false
+		tcRefresh, twinMiss := false, false
 		switch focus {
 		case "C19":
 			// the refresh: slow, failing, or negative
@@ -1433,6 +1475,16 @@ func genCacheOps(r *rng, p *plan.Plan, focus, arm string) {
 			}
 			if r.p(0.15) {
 				t.Acts = append([]plan.UpAction{{Kind: []string{"silent", "fin", "garbage"}[r.intn(3)], Raw: []byte{9}, DelayUs: delay()}}, t.Acts...)
+			}
+			if a.Rcode == 0 && a.Bits&refdns.BitTC == 0 && life >= 4 && r.p(0.15) {
+				// two first queries miss together; the upstream answers the first
+				// exchange properly and the second, a little later, with an error:
+				// the error arrives while the positive entry is fresh
+				alt := *a
+				alt.Rcode, alt.NAn = []int{2, 5, 2, 3}[r.intn(4)], 0
+				t.Ans2, t.Ans2From = &alt, 1
+				t.Acts = []plan.UpAction{{Kind: "reply", DelayUs: r.i64(2_000, 20_000)}, {Kind: "reply", DelayUs: r.i64(40_000, 200_000)}, {Kind: "reply", DelayUs: delay()}}
+				twinMiss = true
 			}
 			if a.Rcode == 0 && a.Bits&refdns.BitTC == 0 && life >= 4 && r.p(0.25) {
 				// the background refresh (second fetch) is answered with TC:
@@ -1477,6 +1529,10 @@ func genCacheOps(r *rng, p *plan.Plan, focus, arm string) {
 			switch {
 			case i == 0:
 				at = t0
+			case twinMiss && i == 1:
+				at = t0 + r.i64(100, 1500) // misses too: the first exchange is still out
+			case twinMiss && i < 5:
+				at = t0 + r.i64(400_000, life*1_000_000*70/100)
 			case many && i == 1:
 				at = 20_000 + life*1_000_000*80/100 + r.i64(0, 150_000)
 			case many:
